@@ -556,4 +556,94 @@ theorem sortM_stable (keys : List SortKey) (rows : List Row) (hk : ∀ k ∈ key
       exact pair_sublist_of_pairwise (pairwise_mergeSort_on (leK k) _ htot htr)
         (List.mem_mergeSort.2 ha) (List.mem_mergeSort.2 hb) hne hba
 
+/-! ### row-wise operations are independent of the partitioning (C12 `partition_independent`) -/
+
+section Generic
+variable {ε α β γ : Type}
+
+theorem filterMapM_append_except (f : α → Except ε (Option β)) (l₁ l₂ : List α) :
+    (l₁ ++ l₂).filterMapM f = (do let a ← l₁.filterMapM f; let b ← l₂.filterMapM f; pure (a ++ b)) := by
+  induction l₁ with
+  | nil => simp
+  | cons x l₁ ih =>
+    simp only [List.cons_append, List.filterMapM_cons, ih]
+    cases f x with
+    | error e => rfl
+    | ok o =>
+      cases o with
+      | none => rfl
+      | some b =>
+        cases l₁.filterMapM f with
+        | error e => rfl
+        | ok a =>
+          cases l₂.filterMapM f with
+          | error e => rfl
+          | ok c => rfl
+
+/-- `mapM` per partition then flatten = `mapM` on the flattened rows (also the error is the same) -/
+theorem mapM_parts_flatten (f : α → Except ε β) (ps : List (List α)) :
+    (ps.mapM (fun (p : List α) => p.mapM f)).map List.flatten = ps.flatten.mapM f := by
+  induction ps with
+  | nil => rfl
+  | cons p ps ih =>
+    simp only [List.flatten_cons, List.mapM_cons, List.mapM_append, ← ih]
+    cases p.mapM f with
+    | error e => rfl
+    | ok a =>
+      cases List.mapM (fun p => List.mapM f p) ps with
+      | error e => rfl
+      | ok c => rfl
+
+theorem filterMapM_parts_flatten (f : α → Except ε (Option β)) (ps : List (List α)) :
+    (ps.mapM (fun (p : List α) => p.filterMapM f)).map List.flatten = ps.flatten.filterMapM f := by
+  induction ps with
+  | nil => rfl
+  | cons p ps ih =>
+    simp only [List.flatten_cons, List.mapM_cons, filterMapM_append_except, ← ih]
+    cases p.filterMapM f with
+    | error e => rfl
+    | ok a =>
+      cases List.mapM (fun p => List.filterMapM f p) ps with
+      | error e => rfl
+      | ok c => rfl
+
+theorem toOption_map (x : Except ε α) (g : α → β) : (x.map g).toOption = x.toOption.map g := by
+  cases x <;> rfl
+
+theorem mapM_zip_map (g : α → Except ε β) (h : α → β → γ) (rows : List α) :
+    (rows.mapM g).map (fun vals => (rows.zip vals).map (fun rv => h rv.1 rv.2)) =
+      rows.mapM (fun r => (g r).map (h r)) := by
+  induction rows with
+  | nil => rfl
+  | cons r rows ih =>
+    simp only [List.mapM_cons, ← ih]
+    cases g r with
+    | error e => rfl
+    | ok v =>
+      cases rows.mapM g with
+      | error e => rfl
+      | ok vs => rfl
+
+end Generic
+
+/-- the new row of `withColumn` for one input row and its value -/
+def newRow (names : List String) (name : String) (r : Row) (v : SV) : Row :=
+  if names.contains name then (r.zip names).map fun (x, n) => if n == name then v else x else r ++ [v]
+
+/-- the rows of `withColumn` are computed row by row -/
+theorem withColumnM_rows_eq_mapM (names : List String) (name : String) (e : Expr) (rows : List Row) :
+    (withColumnM names name e rows).map (·.2) =
+      rows.mapM (fun r => (evalM r e).map (newRow names name r)) := by
+  rw [← mapM_zip_map]
+  unfold withColumnM newRow
+  by_cases hc : names.contains name = true
+  · simp only [hc, if_true]
+    cases List.mapM (fun r => evalM r e) rows with
+    | error x => rfl
+    | ok vals => rfl
+  · simp only [hc]
+    cases List.mapM (fun r => evalM r e) rows with
+    | error x => rfl
+    | ok vals => rfl
+
 end PysparklingVerif.Sql
